@@ -113,7 +113,9 @@ def _lower_struct(text, cname, log, subst=()):
     body = re.sub(r'\b(\w+)::address_size\b', lambda mm: {'IPv6Address': '16', 'IPv4Address': '4'}.get(mm.group(1), mm.group(0)), body)
     body = re.sub(r'\b(hw)?address_type::address_size\b', '6', body)
     cname = cname or name
-    return 'typedef %s __attribute__((packed)) %s_s %s %s;\n' % (kind, cname, body.rstrip(), cname)
+    packed = '/*PACKED*/' in body
+    body = body.replace('/*PACKED*/', '')
+    return 'typedef %s %s %s_s %s %s;\n' % (kind, '__attribute__((packed))' if packed else '/* not packed in the source */', cname, body.rstrip(), cname)
 
 
 def _process_func(u, header_line, lines, mutate=None):
@@ -295,7 +297,8 @@ def _expand(u, text, depth=0, mutate=None):
             t = d.split()
             cname = t[4] if len(t) > 4 and t[3] == 'as' else None
             subst = [tuple(x.split('=', 1)) for x in t[3:] if '=' in x]
-            out.append(_lower_struct(cxx.find_struct(t[1], t[2]), cname, None, subst))
+            nth = int(t[t.index('nth') + 1]) if 'nth' in t else 0
+            out.append(_lower_struct(cxx.find_struct(t[1], t[2], nth=nth), cname, None, subst))
         elif d.startswith('enum '):
             t = d.split()
             e = cxx.preprocess(cxx.find_enum(t[1], t[2]))
